@@ -12,8 +12,9 @@ Full statement (DESIGN 4/C01), for every template `pt` and every `to_single_wave
 Proved here (`_partial`): the statement for the stage-1 constructor subset `Stage1` (constant and function
 atoms composed by sequencing, repetition, indexed iteration and parameter / channel / measurement mapping),
 without a global transformation and without `to_single_waveform`, for programs all of whose pieces have
-positive duration, *given* that the denotation exists (`denoteTop … = .ok P`; the existence of `P` and the
-equality of the channel sets are not proved).  Table / point / multi-channel / arithmetic atoms, parallel
+positive duration, *given* that the denotation exists (`denoteTop … = .ok P`; the existence of `P` is not
+proved: the denotation additionally demands affine function expressions that evaluate, and equal channel sets
+of sequenced parts).  Table / point / multi-channel / arithmetic atoms, parallel
 channels, scalar arithmetic, time reversal and the single-waveform collapse are covered by the
 correspondence + judge only; `builder_correct_over_atoms` shows that the builder part of the proof does not
 depend on which atoms are used.
@@ -22,13 +23,17 @@ namespace QP.Props.C01
 open QP.PT
 
 /-- **compile correctness (partial)**: for a stage-1 template the compiled program, sampled anywhere in
-`[0, duration)`, yields on every channel of the denoted pulse exactly the denoted voltage — a value, never NaN. -/
+`[0, duration)`, yields on every channel of the denoted pulse exactly the denoted voltage — a value, never NaN —
+and every played piece defines exactly the channels of the denoted pulse (dropped channels absent, no other
+channel appears). -/
 theorem compile_correct_partial {pt : PT} (hs : Stage1 pt) (params : List (String × Rat))
     (mm : Option (List (MName × Option MName))) (cm : List (Chan × Option Chan)) (prog : Loop) (P : Pulse)
     (hprog : createProgram pt params mm cm [] = .ok (some prog))
     (hden : denoteTop pt params mm cm = .ok P) (hpos : prog.allPos) :
+    (∀ cs ∈ prog.leafChannels, ∀ x, x ∈ cs ↔ x ∈ P.chanNames) ∧
     ∀ c pl, P.chans.lookup c = some pl → ∀ t, 0 ≤ t → t < P.dur →
       ∃ v, prog.sample c t = some v ∧ PL.at pl t = some v := by
+  refine ⟨(createProgram_rel hs params mm cm prog P hprog hden hpos).2.2.2, ?_⟩
   intro c pl hc t ht0 ht
   obtain ⟨_, hsample, _⟩ := createProgram_rel hs params mm cm prog P hprog hden hpos
   have := hsample c pl hc t ht0 ht
@@ -72,6 +77,15 @@ theorem builder_correct_over_atoms {pt : PT} (hb : Basic pt) : CompileOK pt := c
 theorem function_affine (e : Expr) (look : String → Except Err Rat) (h : e.affineIn "t" = true)
     (a b : Rat) (h0 : e.eval (withT "t" look 0) = .ok a) (h1 : e.eval (withT "t" look 1) = .ok b) :
     ∀ t, e.eval (withT "t" look t) = .ok (a + (b - a) * t) := affine_eval e "t" look h a b h0 h1
+
+/-- **the judge**: the values the harness accepts for a sample (`PL.adm`, printed by the driver) are exactly the
+right-open value `PL.at` of the theorem above wherever no time reversal is involved … -/
+theorem judge_is_at (pl : PL) (h : ∀ s ∈ pl, s.amb = false) (t : Rat) :
+    PL.adm none pl t = (PL.at pl t).toList := adm_eq_at pl h none t
+
+/-- … and always contain it (inside a reversed part the left limit at a junction may follow) -/
+theorem judge_contains_at (pl : PL) (t v : Rat) (h : PL.at pl t = some v) :
+    ∃ rest, PL.adm none pl t = v :: rest := adm_head pl none t v h
 
 /-- `LoopGuard`: a sequence / iteration that appends nothing leaves nothing behind, its own windows included -/
 theorem guard_drops_empty (ms : List Window) : guardRun ms [] = [] := by
